@@ -445,8 +445,10 @@ class Checker:
             'assumptions': sorted(set(cs.assumptions)) + ASSUMPTIONS,
             'wall_s': round(time.time() - self.t0, 2), 'violations': len(violations) + getattr(self, 'extra_violations', 0),
         }
-        os.makedirs(os.path.join(VERIF, 'evidence'), exist_ok=True)
-        with open(os.path.join(VERIF, 'evidence', pid + '.json'), 'w') as f:
+        # (the seed scripts run checks against deliberately broken trees: they redirect the evidence elsewhere)
+        evdir = os.environ.get('GOVC_EVIDENCE_DIR') or os.path.join(VERIF, 'evidence')
+        os.makedirs(evdir, exist_ok=True)
+        with open(os.path.join(evdir, pid + '.json'), 'w') as f:
             json.dump(ev, f, indent=1)
 
 
